@@ -162,5 +162,13 @@ def get_ast(func):
     except (OSError, IOError):
         return None
     source = inspect.cleandoc('\n' + rawsource)
-    module = ast.parse(source)
-    return module.body[0]
+    try:
+        module = ast.parse(source)
+    except SyntaxError:
+        # the lines holding a lambda need not form a statement
+        return None
+    func_ast = module.body[0]
+    if not isinstance(func_ast, (ast.FunctionDef, ast.AsyncFunctionDef)):
+        # a lambda: what comes back is the statement it is written in
+        return None
+    return func_ast
